@@ -159,6 +159,30 @@ theorem st_ascii_roundtrip (w d1 d2 : Nat) (elems : List STText.Elem)
     have e2 : e.2.isEmpty = false := by cases h : e.2 <;> simp_all
     simp [e1, e2]
 
+/-- **ST JSON round trip** (token level: the JSON document is the same sequence of `(t, s)` parts
+    written with single cells only, followed by the depth-only object). -/
+theorem st_json_roundtrip (w d1 d2 : Nat) (elems : List STText.Elem)
+    (h1 : d1 ≤ Params.time.maxDepth w ∧ d1 ≤ 255) (h2 : d2 ≤ Params.hpx.maxDepth w ∧ d2 ≤ 255)
+    (hv : ∀ e ∈ elems, Valid Params.time w d1 e.1 ∧ Valid Params.hpx w d2 e.2 ∧ e.1 ≠ [] ∧ e.2 ≠ []) :
+    decodeDoc w (encodeDocJson w d1 d2 elems) = .ok (d1, d2, elems) := by
+  have ht : Params.time.dim = 1 ∨ Params.time.dim = 2 := by decide
+  have hh : Params.hpx.dim = 1 ∨ Params.hpx.dim = 2 := by decide
+  unfold encodeDocJson
+  induction elems with
+  | nil =>
+    simp only [List.map_nil, List.nil_append, decodeDoc, decode_depth_only _ w d1 h1,
+      decode_depth_only _ w d2 h2]
+    simp
+  | cons e t ih =>
+    obtain ⟨v1, v2, n1, n2⟩ := hv e List.mem_cons_self
+    have r1 := Moc.Codec.C07.json_roundtrip_moc Params.time ht w d1 h1.1 h1.2 e.1 v1
+    have r2 := Moc.Codec.C07.json_roundtrip_moc Params.hpx hh w d2 h2.1 h2.2 e.2 v2
+    have iht := ih (fun x hx => hv x (List.mem_cons_of_mem _ hx))
+    simp only [List.map_cons, List.cons_append, decodeDoc, r1, r2, iht]
+    have e1 : e.1.isEmpty = false := by cases h : e.1 <;> simp_all
+    have e2 : e.2.isEmpty = false := by cases h : e.2 <;> simp_all
+    simp [e1, e2]
+
 end Text
 
 end Moc.STCodec.C11
